@@ -132,15 +132,9 @@ Definition spec_default_path (d : odir) (filename path : list ascii) : bool :=
   let stem := match strip_ext_ci filename ".mac" with Some st => st | None => filename end in
   chars_eqb (stem ++ ext) path.
 
-(* the tape name is 16 bytes: the given name (else the file's base name without ".wav")
-   followed by spaces; a name longer than 16 bytes is an error *)
-Definition spec_tape_name (given : option (list ascii)) (path : list ascii) (name : option (list Z)) (err : bool) : bool :=
-  let base := after_last_slash path in
-  let shown := match given with
-               | Some g => g
-               | None => match strip_ext_ci base ".wav" with Some st => st | None => base end
-               end in
-  let enc := map (fun ch => Z.of_N (N_of_ascii ch)) shown in
+(* the tape name is 16 bytes: the encoded name followed by spaces; an encoded name longer than
+   16 BYTES (not characters) is an error, one of at most 16 bytes is not *)
+Definition spec_tape_bytes (enc : list Z) (name : option (list Z)) (err : bool) : bool :=
   match name with
   | None => false
   | Some nm =>
@@ -148,6 +142,42 @@ Definition spec_tape_name (given : option (list ascii)) (path : list ascii) (nam
       if Nat.leb (length enc) 16
       then negb err && zlist_eqb nm (enc ++ repeat 32 (16 - length enc))
       else err
+  end.
+
+(* the name is the given one (else the file's base name without ".wav"); printable ASCII
+   encodes to itself in every charset the ASCII cases use *)
+Definition spec_tape_name (given : option (list ascii)) (path : list ascii) (name : option (list Z)) (err : bool) : bool :=
+  let base := after_last_slash path in
+  let shown := match given with
+               | Some g => g
+               | None => match strip_ext_ci base ".wav" with Some st => st | None => base end
+               end in
+  spec_tape_bytes (map (fun ch => Z.of_N (N_of_ascii ch)) shown) name err.
+
+(* tape names under an output charset (--charset / Compiler(output_charset=...)): the case carries
+   the shown name (given, or inferred from the file name by the harness from the property text)
+   already encoded by CPython's codec of that charset, None when the codec cannot encode it *)
+Record otcase := {
+  ot_enc : option (list Z);
+  ot_obs_name : option (list Z);     (* the name of the observed Compiler.emitted_files entry *)
+  ot_obs_long : bool;                (* a too-long-string error was reported *)
+  ot_obs_char : bool;                (* an invalid-character error was reported *)
+  ot_obs_failed : bool }.            (* the assembly failed *)
+
+Definition prop_otcase (c : otcase) : bool :=
+  match ot_enc c with
+  | Some enc => negb (ot_obs_char c) && spec_tape_bytes enc (ot_obs_name c) (ot_obs_long c)
+                && Bool.eqb (ot_obs_failed c) (ot_obs_long c)
+  | None => ot_obs_char c && ot_obs_failed c     (* a name the charset cannot carry is refused *)
+  end.
+
+Definition judge_otcase (c : otcase) : N := code_of true (prop_otcase c).
+
+(* a Coq string from bytes: tape names of the command-line cases, encoded by the harness *)
+Fixpoint bstr (l : list Z) : string :=
+  match l with
+  | [] => EmptyString
+  | b :: r => String (ascii_of_N (Z.to_N b)) (bstr r)
   end.
 
 Definition prop_odcase (c : odcase) : bool :=
@@ -216,11 +246,13 @@ Definition judge_ocli (c : ocli) : N := code_of true (prop_ocli c).
 Inductive oany :=
 | OFormat (c : ocase)
 | ODirective (c : odcase)
+| OTape (c : otcase)
 | OCli (c : ocli).
 
 Definition ojudge (c : oany) : N :=
   match c with
   | OFormat c => judge_ocase c
   | ODirective c => judge_odcase c
+  | OTape c => judge_otcase c
   | OCli c => judge_ocli c
   end.
